@@ -210,7 +210,15 @@ def build_variant(o):
         _built[v] = info
         return info
 
+def _dirlock(d):
+    with _build_lock:
+        return _build_locks.setdefault('native:' + d, threading.Lock())
+
 def build_replay(info, sanitize=False):
+    with _dirlock(info['dir']):
+        return _build_replay(info, sanitize)
+
+def _build_replay(info, sanitize=False):
     exe = os.path.join(info['dir'], 'replay_san' if sanitize else 'replay')
     if os.path.exists(exe) and os.path.getmtime(exe) >= os.path.getmtime(info['sll']):
         return exe
@@ -224,6 +232,10 @@ def build_replay(info, sanitize=False):
     return exe
 
 def build_replay_cpp_san(o, info):
+    with _dirlock(info['dir']):
+        return _build_replay_cpp_san(o, info)
+
+def _build_replay_cpp_san(o, info):
     """the harness C++ source (real code, no substitutions) compiled natively with ASan+UBSan"""
     exe = os.path.join(info['dir'], 'replay_cppsan')
     src = os.path.join(VERIF, 'harness', o.tu)
@@ -240,6 +252,10 @@ def build_replay_cpp_san(o, info):
     return exe
 
 def build_cnative(info):
+    with _dirlock(info['dir']):
+        return _build_cnative(info)
+
+def _build_cnative(info):
     """generated C compiled natively by gcc (translator self-test)"""
     exe = os.path.join(info['dir'], 'cnative')
     if os.path.exists(exe) and os.path.getmtime(exe) >= os.path.getmtime(info['c']):
@@ -653,7 +669,7 @@ def main():
     seed = int(os.environ.get('VERIF_SEED', '0') or 0)
     t0 = time.time()
     mod = load_prop(pid)
-    tl = 'q' if tier == 'quick' else 't'
+    tl = 'q' if tier == 'quick' else ('x' if tier == 'x' else 't')
     obls = [o for o in mod.OBLIGATIONS if tl in o.tiers and (only is None or only in o.name)]
     outdir = os.path.join(BUILD, 'out-%s-%s' % (pid, tier))
     shutil.rmtree(outdir, ignore_errors=True); os.makedirs(outdir)
